@@ -28,8 +28,8 @@ theorem invN_init : InvN init := by
 
 @[simp] theorem pend_idle  : pend (.idle ) = [] := rfl
 @[simp] theorem pend_done {r} : pend (.done r) = [] := rfl
-@[simp] theorem pend_rd {k} : pend (.rd k) = [] := rfl
-@[simp] theorem pend_ins {k} {v} {c} : pend (.ins k v c) = [] := rfl
+@[simp] theorem pend_rd {k p} : pend (.rd k p) = [] := rfl
+@[simp] theorem pend_ins {k v c e l} : pend (.ins k v c e l) = [] := rfl
 @[simp] theorem pend_insSub {k} {c} {old} : pend (.insSub k c old) = [] := rfl
 @[simp] theorem pend_insEv {k} {c} : pend (.insEv k c) = [] := rfl
 @[simp] theorem pend_insAdd {k} {c} : pend (.insAdd k c) = [] := rfl
@@ -51,6 +51,7 @@ theorem invN_init : InvN init := by
 @[simp] theorem pend_mNote {m} {ws} {ns} : pend (.mNote m ws ns) = ns := rfl
 @[simp] theorem pend_mTtl {m} : pend (.mTtl m) = [] := rfl
 @[simp] theorem pend_mTtlMap {m} {e} : pend (.mTtlMap m e) = [] := rfl
+@[simp] theorem pend_mTti {m} : pend (.mTti m) = [] := rfl
 @[simp] theorem pend_mCapLoad {m} : pend (.mCapLoad m) = [] := rfl
 @[simp] theorem pend_mCapEvict {m} {n} : pend (.mCapEvict m n) = [] := rfl
 @[simp] theorem pend_mCapMap {m} {v} {r} : pend (.mCapMap m v r) = [] := rfl
@@ -65,7 +66,7 @@ theorem invN_init : InvN init := by
   unfold afterSub; split <;> first | exact pend_nextAdmit _ _ | rfl
 @[simp] theorem pend_afterVictim (m : MCtx) (ws vs tot ns) : pend (afterVictim m ws vs tot ns) = ns := by
   unfold afterVictim; split <;> rfl
-@[simp] theorem pend_startPC (op : Op) : pend (startPC op) = [] := by cases op <;> rfl
+@[simp] theorem pend_startPC (c : Cfg) (n : Nat) (op : Op) : pend (startPC c n op) = [] := by cases op <;> rfl
 
 /-- thread `t` moves to a PC with the same pending notifications; logs unchanged -/
 theorem invN_frame {s s' : State} (hi : InvN s) (t : Nat) (x : PC) (hpc : s'.pc = upd s.pc t x)
@@ -280,6 +281,19 @@ theorem invN_ttlMap {c : Cfg} {s s' : State} {t : Nat} {sent : Bool} (hi : InvN 
     refine invN_bulk hi t _ .expired (removeKeys c.nShards m.sh s.map expired).2 sent rfl ?_ ?_ rfl rfl rfl <;> simp [hpc]
   · simp at h
 
+theorem invN_ttiMap {c : Cfg} {s s' : State} {t : Nat} {vs : List Nat} {sent : Bool} (hi : InvN s)
+    (h : stepTtiMap c s t vs sent = some s') : InvN s' := by
+  unfold stepTtiMap at h
+  split at h
+  · rename_i m hpc
+    split at h
+    · simp at h; subst h
+      refine invN_frame hi _ _ rfl ?_ rfl rfl rfl
+      simp [hpc]
+    · simp at h; subst h
+      refine invN_bulk hi t _ .expired (removeKeys c.nShards m.sh s.map (expiredOf c s vs)).2 sent rfl ?_ ?_ rfl rfl rfl <;> simp [hpc]
+  · simp at h
+
 theorem invN_capMap {c : Cfg} {s s' : State} {t : Nat} {sent : Bool} (hi : InvN s)
     (h : stepCapMap c s t sent = some s') : InvN s' := by
   unfold stepCapMap at h
@@ -293,6 +307,7 @@ theorem invN_step {c : Cfg} {s s' : State} {t : Nat} {l : Label} (hi : InvN s) (
     InvN s' := by
   cases l <;> simp only [step] at h
   case call op => invn_step hi h stepCall
+  case advance d => simp at h; subst h; exact ⟨hi.rem_lt, hi.not_sub, hi.not_nodup, hi.pend_sub, hi.pend_fresh, hi.pend_nodup, hi.pend_disj⟩
   case read => invn_step hi h stepRead
   case insMap => invn_step hi h stepInsMap
   case insSub => invn_step hi h stepInsSub
@@ -317,6 +332,7 @@ theorem invN_step {c : Cfg} {s s' : State} {t : Nat} {l : Label} (hi : InvN s) (
   case evNote sent => invn_step hi h stepEvNote
   case ttlAdvance e => invn_step hi h stepTtlAdvance
   case ttlMap sent => exact invN_ttlMap hi h
+  case ttiMap vs sent => exact invN_ttiMap hi h
   case capLoad => invn_step hi h stepCapLoad
   case capEvict v r => invn_step hi h stepCapEvict
   case capMap sent => exact invN_capMap hi h
